@@ -55,7 +55,7 @@ Proof.
 Qed.
 
 Lemma rel_eta a b : rvars a = rvars b -> rmat a = rmat b -> a = b.
-Proof. destruct a, b. cbn [rvars rmat]. intros -> ->. reflexivity. Qed.
+Proof. destruct a as [va ma], b as [vb mb]. cbn [rvars rmat]. intros -> ->. reflexivity. Qed.
 
 (* ------------------------------------------------------------------ *)
 (* eqV / leV / finite_on                                               *)
